@@ -60,6 +60,8 @@ def check(rep, tier, seed):
         if elements(sh) <= 300:
             for p in rng.sample(range(0, 18), 3):
                 cases_t.append("textw %s %d %s" % (fmt(sh), p, ",".join(tok(v) for v in vals)))
+        elif sh in ([1025], [8193], [33, 33]):
+            cases_t.append("textw %s %d %s" % (fmt(sh), rng.choice([0, 2, 6]), ",".join(tok(v) for v in vals)))     # long value lines too
     # files whose LAST byte (the top byte of the last little-endian double) is an ASCII control / space code, and whose first
     # value bytes look like text: nothing about a binary file may be trimmed or sniffed beyond the magic
     for top in (0x09, 0x0a, 0x0c, 0x0d, 0x20, 0x00, 0x23):
